@@ -7,7 +7,36 @@ import (
 	"golang.org/x/tools/go/ssa"
 )
 
-func (v *FnVC) checkFieldGuards(l *Loc, val Term, p token.Pos)          {}
+// checkFieldGuards: assert-store clauses of the function under contract, at every store to a struct field of the
+// given name ($obj: pointer to the struct, $value: the value stored, $old: the value the field held before).
+func (v *FnVC) checkFieldGuards(i *ssa.Store, l *Loc, val Term, p token.Pos) {
+	if v.C == nil || len(v.C.StoreAsserts) == 0 {
+		return
+	}
+	fa, ok := i.Addr.(*ssa.FieldAddr)
+	if !ok {
+		return
+	}
+	st, ok := structOf(deref(fa.X.Type()))
+	if !ok {
+		return
+	}
+	field := st.Field(fa.Field).Name()
+	for _, ua := range v.C.StoreAsserts {
+		if ua.Callee != field {
+			continue
+		}
+		env := v.baseEnv()
+		env.cur = true
+		blk, cst := v.curBlock, v.cur
+		env.lookup = func(n string) (Term, bool) { return v.localByNameAt(n, blk, i, cst) }
+		env.vars["$obj"] = v.val(fa.X)
+		env.vars["$value"] = val
+		env.vars["$old"] = v.load(cst, l)
+		f := v.evalBool(ua.C.E, env)
+		v.oblige("assert-store:"+field, f, fmt.Sprintf("at every store to field .%s: %s", field, ua.C.Text), p)
+	}
+}
 // checkMapGuards: assert-update clauses of the function under contract, at every map update whose map operand was
 // loaded from a struct field of the given name.
 func (v *FnVC) checkMapGuards(i *ssa.MapUpdate, m, k Term) {
